@@ -194,8 +194,16 @@ pub open spec fn compat(sim: Kind, r: Kind) -> bool {
     (sim == Kind::Mark) == (r == Kind::Mark) && (r == Kind::Any || r == sim)
 }
 
+/// the two halves, so that a failure can be attributed: same depth and MARK positions (what the
+/// stack discipline C01 needs) / compatible kinds (C03)
+pub open spec fn shape_eq(sim: Seq<Kind>, r: Seq<Kind>) -> bool {
+    sim.len() == r.len() && forall|i: int| 0 <= i < sim.len() ==> ((#[trigger] sim[i] == Kind::Mark) == (r[i] == Kind::Mark))
+}
+pub open spec fn kinds_ok(sim: Seq<Kind>, r: Seq<Kind>) -> bool {
+    sim.len() == r.len() && forall|i: int| 0 <= i < sim.len() ==> (r[i] == Kind::Any || r[i] == #[trigger] sim[i])
+}
 pub open spec fn compat_stack(sim: Seq<Kind>, r: Seq<Kind>) -> bool {
-    sim.len() == r.len() && forall|i: int| 0 <= i < sim.len() ==> compat(#[trigger] sim[i], r[i])
+    shape_eq(sim, r) && kinds_ok(sim, r)
 }
 
 // ---------------------------------------------------------------------------------------------
@@ -236,9 +244,9 @@ pub proof fn lemma_top_mark_compat(sim: Seq<Kind>, r: Seq<Kind>)
     lemma_top_mark_props(sim);
     let t = top_mark(sim);
     assert forall|i: int| t < i < r.len() implies r[i] != Kind::Mark by {
-        assert(compat(sim[i], r[i]));
+        assert((sim[i] == Kind::Mark) == (r[i] == Kind::Mark));
     }
-    if t >= 0 { assert(compat(sim[t], r[t])); }
+    if t >= 0 { assert((sim[t] == Kind::Mark) == (r[t] == Kind::Mark)); }
     lemma_top_mark_unique(r, t);
 }
 
